@@ -605,9 +605,10 @@ class Fact:
 class LossExec:
     """executes the per-measurement statements of a loss function for one metric"""
 
-    def __init__(self, fi, marg, cl, Q, y, noise, metric):
+    def __init__(self, fi, marg, cl, Q, y, noise, metric, noise_value=None):
         self.fi, self.marg, self.cl, self.Q, self.y, self.noise, self.metric = fi, marg, cl, Q, y, noise, metric
-        self.ev = LinEval({y: Lin([((), 'y', Rat.const(1))])}, {Q}, {noise: sym(noise)})
+        # noise_value: what the third field of a stored measurement holds, as a function of the measurement's noise scale (symbol `noise`)
+        self.ev = LinEval({y: Lin([((), 'y', Rat.const(1))])}, {Q}, {noise: sym(noise) if noise_value is None else noise_value})
         self.facts = {}          # name -> Fact
         self.xsrc = {}           # vector name -> Fact it is the data vector of
         self.losses, self.grads = [], []
@@ -730,6 +731,40 @@ class LossExec:
         raise AnalysisError('%s: unsupported statement `%s`' % (self.fi.qualname, U(s)[:60]))
 
 
+def stored_third_field(ctx, fi, noise):
+    """`self.measurements` as the class stores it: the caller's list itself, or a list rebuilt tuple by tuple
+    `[(Q, y, f(noise), cl) for Q, y, noise, cl in measurements]` - then the third field read back by the loss holds f(noise).
+    -> None (the noise scale itself) or the Alg f(sym(<loop name>)) with the loop's own name standing for the measurement's noise scale"""
+    stores = []
+    for q_, f_ in fi.module.funcs.items():
+        if f_.cls is fi.cls and fi.cls is not None:
+            for a_ in ast.walk(f_.node):
+                if isinstance(a_, ast.Assign) and any(U(t_) == 'self.measurements' for t_ in a_.targets):
+                    stores.append((f_, a_))
+    out = None
+    for f_, a_ in stores:
+        v = a_.value
+        if isinstance(v, ast.Name):
+            continue
+        if isinstance(v, ast.ListComp) and len(v.generators) == 1 and not v.generators[0].ifs and isinstance(v.generators[0].target, ast.Tuple) \
+                and len(v.generators[0].target.elts) == 4 and isinstance(v.elt, ast.Tuple) and len(v.elt.elts) == 4 \
+                and all(isinstance(e_, ast.Name) for e_ in v.generators[0].target.elts):
+            a0, a1, n_, c_ = [e_.id for e_ in v.generators[0].target.elts]
+            e0, e1, e2, e3 = v.elt.elts
+            if U(e0) == a0 and U(e1) == a1 and U(e3) == c_:
+                if U(e2) == n_:
+                    continue
+                val = SymEval({n_: sym(noise)}, Atoms(), strict=True).ev(e2)
+                if out is not None and not out.eq(val):
+                    raise AnalysisError('%s: self.measurements is stored in two different forms' % fi.qualname)
+                out = val
+                continue
+        raise AnalysisError('%s: the stored measurement list `%s` is in no recognised form' % (fi.qualname, U(v)[:70]))
+    if out is not None:
+        ctx.note('the third field of a stored measurement holds %r of its noise scale (read off the store of self.measurements)' % (out,))
+    return out
+
+
 def check_loss(ctx, fi):
     """Works on the three copies of _marginal_loss: the two estimators' (loop over cliques, then over the clique's
     group, with a projection) and PublicInference's (one loop over self.measurements, no projection)."""
@@ -765,9 +800,12 @@ def check_loss(ctx, fi):
         shape = 'flat'
     else:
         raise AnalysisError('%s: unrecognised loop structure' % fi.qualname)
+    noise_value = None
+    if shape == 'flat':
+        noise_value = stored_third_field(ctx, fi, noise)
     D = Lin([(((Q,), 'x', Rat.const(1) / Rat.sym(noise))), ((), 'y', Rat.const(-1) / Rat.sym(noise))])
     for metric in ('L1', 'L2'):
-        ex = LossExec(fi, marg, cl, Q, y, noise, metric)
+        ex = LossExec(fi, marg, cl, Q, y, noise, metric, noise_value)
         ex.xfact = None
         for s in pre_stmts:
             f = ex.fact(s.value)
